@@ -142,7 +142,9 @@ PROVED = {
         "static/dynamic/conditional attributes, `-` Go lines, brace-less if/else-if/else chains, for, switch with case lines, blocks with explicit braces, @render with/without nested "
         "content, @children, object references and @attributes through the runtime helpers, a class attribute with a dynamic or quoted value (merged into the class list), whitespace marks, comment blocks, the javascript/css/plain/preserve/escaped filters; any size and nesting) the generated body is proved to be a run of a grammar of generated code (`denotes`) standing for the "
         "segment list of the template (literal HTML that reads back exactly, escaped / raw expression values, `stmt { code of the nested block }`, "
-        "Render/PushChildren calls); the whitespace pass is the identity on marker-free static HTML. A conditional class attribute (class?) "
+        "Render/PushChildren calls); the whitespace pass is the identity on marker-free static HTML. The hypotheses of that theorem are decided by an "
+        "extracted test proved sound (FragCheck), which the check runs on every generated template: the evidence says to how many the theorem applies. "
+        "A conditional class attribute (class?) "
         "and Go's execution of the emitted statements are covered by the denotation runs only: partial.",
  "C02": "besides the escaping function: the exact code emitted for `= expr`/`#{}` (wrapped in goht.EscapeString once in an escaping context, not at all "
         "in an unescaped one) and for dynamic attribute values (always escaped), from any writer state.",
